@@ -22,6 +22,8 @@ import (
 
 // Run is the context of one worker process of a monitor.
 type Run struct {
+	// OnSpin, when set, is called by MustQuiesce when its watchdog fires while goroutines of the library are still running.
+	OnSpin func(where string, busy []G)
 	ID     string
 	Tier   string // "quick" or "thorough"
 	Seed   uint64
@@ -379,4 +381,11 @@ func trimStack(b []byte) string {
 		s = s[:3000] + "…"
 	}
 	return s
+}
+
+// GiveUp writes the results gathered so far as the worker's result and ends the process: used after a finding that
+// makes every further quiescence check of this worker meaningless (a goroutine that spins for ever).
+func (r *Run) GiveUp() {
+	r.write(true)
+	os.Exit(0)
 }
